@@ -100,6 +100,17 @@ def _chain_case():
     return {"funcs": [f, g], "inputs": [["x0", {"arr": [[2], [_in("x0", [i]) for i in range(2)]]}]], "input_kinds": {"x0": "list"}, "internal": [], "sizes": {}}
 
 
+def _outer_case():
+    """A non-square outer product (2 x 3) followed by an element-wise consumer: the linear index of a stored element and its key differ in
+    every non-trivial way (row- vs column-major, axis lengths swapped); two mapped outputs, so that a kill inside the persist loop of a memory
+    storage leaves the first snapshot complete (seeded change C05-s4-B: `DictArray.get_from_index` unravelled column-major, seen only when a
+    resumed run assembles a loaded 2-D dict array)."""
+    f = _func("f0", ["x0", "x1"], ["y0"], {"inputs": [["x0", ["i"]], ["x1", ["j"]]], "outputs": [["y0", ["i", "j"]]]})
+    g = _func("f1", ["y0"], ["y1"], {"inputs": [["y0", ["i", "j"]]], "outputs": [["y1", ["i", "j"]]]})
+    return {"funcs": [f, g], "inputs": [["x0", {"arr": [[2], [_in("x0", [i]) for i in range(2)]]}], ["x1", {"arr": [[3], [_in("x1", [i]) for i in range(3)]]}]],
+            "input_kinds": {"x0": "list", "x1": "array"}, "internal": [], "sizes": {}}
+
+
 def _dflt(name, n):
     return {"arr": [[n], [{"f": "dflt", "k": [["n", {"s": name}], ["at", {"arr": [[1], [q]]}]]} for q in range(n)]]}
 
@@ -126,6 +137,9 @@ CORPUS = [
     # the third persisting storage: a manager-backed dict persisted like `dict` (two mapped outputs: a kill inside the persist loop leaves
     # one snapshot; seeded change C05-s2-B names it: "shared_memory_dict gets FileNotFoundError in the same state")
     {"desc": _chain_case(), "storage": "shared_memory_dict", "mode": "seq", "picker": []},
+    # multi-axis, non-square arrays under a memory storage and under files (key <-> linear index in the resume path)
+    {"desc": _outer_case(), "storage": "dict", "mode": "seq", "picker": []},
+    {"desc": _outer_case(), "storage": "file_array", "mode": "seq", "picker": []},
 ]
 
 
